@@ -279,6 +279,19 @@ def run_hgm(case):
                                 res.violate(f"hgm[{_pl(shift, scale)},normalize={norm}]:predict-range:{name}", f"predict on {name} points returned labels outside [0,{K}) {desc}", cc)
                             if Pm.shape != (m, K) or not np.all(np.isfinite(Pm)) or np.any(Pm < 0) or np.max(np.abs(Pm.sum(1) - 1.0)) > 1e-9:
                                 res.violate(f"hgm[{_pl(shift, scale)},normalize={norm}]:proba:{name}", f"predict_proba on {name} points is not a row-stochastic matrix {desc}", cc)
+                        if thr == 1.0 and maxit == 1000 and spell == "py" and K >= 2:
+                            # a query answered alone, in a pair, or inside the whole batch must get the same label (the pipeline predicts for n_particles rows, possibly 1)
+                            allq = np.vstack([X, Q])
+                            batch = np.concatenate([np.asarray(lt), np.asarray(lq)])
+                            with np.errstate(all="ignore"):
+                                for i in range(len(allq)):
+                                    one = int(np.asarray(h.predict(allq[i:i + 1])).reshape(-1)[0])
+                                    two = int(np.asarray(h.predict(allq[[i, (i + 1) % len(allq)]])).reshape(-1)[0])
+                                    res.evals += 2
+                                    if one != int(batch[i]) or two != int(batch[i]):
+                                        res.violate(f"hgm[{_pl(shift, scale)},normalize={norm}]:predict-batch-consistency", f"point {allq[i].tolist()} is labelled {int(batch[i])} inside the batch of {len(allq)} queries, "
+                                                    f"{one} when asked alone and {two} as the first of two {desc}", cc)
+                                        break
                         res.outcome((d, n, layout, sep, shift, scale, wname, norm, thr, maxit, minpts, K), nontrivial=(K >= 2 or wname != "uniform"))
                         res.bump(f"K={min(K, 4)}")
     res.states += 1
